@@ -237,7 +237,28 @@ func (x *Exec) recv(ch *ChanV, commaOk bool) Value {
 		}
 		return v
 	}
-	x.unsupported("blocking receive on %s channel", ch.Kind)
+	if st, ok := ch.Tag.(*timerState); ok {
+		zero := x.zero(x.eng.namedType("time", "Time"))
+		if st.pending {
+			st.pending = false
+		} else if st.active && !st.fired {
+			st.fired = true // the receiver waits until the timer goes off
+			x.clockNS += 150_000_000
+		} else {
+			x.goPanic("DEADLOCK: receive from a timer channel that will never deliver (timer stopped or its value already taken)", nil)
+		}
+		if commaOk {
+			return Tuple{zero, x.ctx.True()}
+		}
+		return zero
+	}
+	if ch.Tag == "closed" || (ch.Ready != nil && ch.Ready.IsTrue()) {
+		if commaOk {
+			return Tuple{x.zero(types.NewStruct(nil, nil)), x.ctx.False()}
+		}
+		return x.zero(types.NewStruct(nil, nil))
+	}
+	x.goPanic("DEADLOCK: blocking receive on a "+ch.Kind+" channel that nothing in this execution can make ready", nil)
 	return nil
 }
 
@@ -247,6 +268,9 @@ func (x *Exec) chanReady(ch *ChanV) *term.Term {
 	}
 	if len(ch.Buf) > 0 {
 		return x.ctx.True()
+	}
+	if st, ok := ch.Tag.(*timerState); ok {
+		return x.ctx.BoolC(st.pending)
 	}
 	if ch.Ready != nil {
 		if f, ok := ch.Tag.(func() *term.Term); ok {
@@ -289,6 +313,11 @@ func (x *Exec) selectOp(fr *frame, ins *ssa.Select) Value {
 			}
 			if ch != nil && ch.OnFire != nil {
 				ch.OnFire()
+			}
+			if ch != nil {
+				if st, ok := ch.Tag.(*timerState); ok {
+					st.pending = false // the value has been received
+				}
 			}
 			return mk(i)
 		}
